@@ -592,9 +592,12 @@ def run(fx, tier):
             if not s[k] & 0x80:
                 okk = True
                 break
+        minimal = okk and (k == 0 or s[k] != 0)          # [MQTT-1.5.5-1]: the minimum number of bytes; `80 00` is not well-formed
         if okk:
             want = (1, val, k + 1)
             got = (1 if ret else 0, cap.get('attr'), cap.get('first').p)
+            if not minimal and not ret:
+                continue                                  # rejecting a non-minimal encoding is allowed
         else:
             want = (0,)
             got = (1 if ret else 0,)
